@@ -127,6 +127,14 @@ pub trait Sut {
     fn item_size(&self) -> usize;
     fn take_log(&self) -> Vec<Ev>;
     fn is_async(&self) -> bool;
+    fn buffer_cap(&self) -> usize;
+    /// processor steps that do nothing when the processor is in the middle of a step itself
+    fn try_step_insert(&self) -> Option<Result<(), String>>;
+    fn try_step_cleanup(&self) -> Option<Result<(), String>>;
+    fn try_step_policy(&self) -> bool;
+    fn processor_free(&self) -> bool;
+    /// clear() issued from inside a yield hook (must not install a hook of its own)
+    fn clear_nested(&self, pre: usize) -> (Result<(), String>, Vec<StepObs>);
 }
 
 // ------------------------------------------------------------------------------------------
@@ -134,6 +142,7 @@ pub trait Sut {
 // ------------------------------------------------------------------------------------------
 
 pub struct SyncSut {
+    pub cap: usize,
     pub cache: SCache,
     pub proc_: RefCell<ParkedProcessor<Val, Validator, RecCallback, DetS>>,
     pub cb: RecCallback,
@@ -156,6 +165,7 @@ impl SyncSut {
             .set_hasher(DetS::default())
             .verif_finalize_parked()?;
         Ok(SyncSut {
+            cap: cfg.buffer_size,
             cache,
             proc_: RefCell::new(proc_),
             cb,
@@ -302,7 +312,11 @@ impl Sut for SyncSut {
         self.proc_.borrow_mut().step_policy()
     }
     fn pending(&self) -> (usize, usize, usize) {
-        self.proc_.borrow().pending()
+        match self.proc_.try_borrow() {
+            Ok(p) => p.pending(),
+            // asked from inside a processor step (interposition): only queue lengths are read
+            Err(_) => unsafe { (*self.proc_.as_ptr()).pending() },
+        }
     }
     fn snapshot(&self) -> Snapshot<Val> {
         self.cache.verif_snapshot()
@@ -328,6 +342,26 @@ impl Sut for SyncSut {
     fn is_async(&self) -> bool {
         false
     }
+    fn buffer_cap(&self) -> usize {
+        self.cap
+    }
+    fn try_step_insert(&self) -> Option<Result<(), String>> {
+        self.proc_.try_borrow_mut().ok().and_then(|mut p| p.step_insert().map(es))
+    }
+    fn try_step_cleanup(&self) -> Option<Result<(), String>> {
+        self.proc_.try_borrow_mut().ok().map(|mut p| es(p.step_cleanup()))
+    }
+    fn try_step_policy(&self) -> bool {
+        self.proc_.try_borrow_mut().ok().map(|mut p| p.step_policy()).unwrap_or(false)
+    }
+    fn processor_free(&self) -> bool {
+        self.proc_.try_borrow_mut().is_ok()
+    }
+    fn clear_nested(&self, _pre: usize) -> (Result<(), String>, Vec<StepObs>) {
+        // a synchronous clear() inside a hook would need a second hook to step the processor:
+        // not expressible with depth-1 hooks, so the sync flavour skips it
+        (Ok(()), Vec::new())
+    }
 }
 
 // ------------------------------------------------------------------------------------------
@@ -344,6 +378,7 @@ fn noop_waker() -> Waker {
 }
 
 pub struct AsyncSut {
+    pub cap: usize,
     pub cache: ACache,
     pub proc_: RefCell<AsyncParkedProcessor<Val, Validator, RecCallback, DetS>>,
     pub cb: RecCallback,
@@ -367,6 +402,7 @@ impl AsyncSut {
                 .set_hasher(DetS::default())
                 .verif_finalize_parked()?;
         Ok(AsyncSut {
+            cap: cfg.buffer_size,
             cache,
             proc_: RefCell::new(proc_),
             cb,
@@ -448,8 +484,18 @@ impl Sut for AsyncSut {
         es(self.now(self.cache.try_insert_if_present(k, v, cost)))
     }
     fn remove(&self, k: u64) -> Result<(), String> {
-        // the interpreter never issues an async remove against a full buffer
-        es(self.now(self.cache.try_remove(&k)))
+        // An async remove awaits buffer space. The interpreter never issues one against a full
+        // buffer while its model is in step; under interposition it can happen: let the
+        // processor make room and hand the callbacks of those steps back to the log.
+        let mut steps = Vec::new();
+        let r = self.drive(self.cache.try_remove(&k), |_| StepKind::Insert, &mut steps);
+        if !steps.is_empty() {
+            let mut evs: Vec<Ev> = steps.into_iter().flat_map(|s| s.log).collect();
+            let mut g = self.cb.log.lock();
+            evs.append(&mut g);
+            *g = evs;
+        }
+        es(r)
     }
     fn get(&self, k: u64) -> Option<(Val, Duration)> {
         self.now(self.cache.get(&k)).map(|r| (*r.value(), r.ttl()))
@@ -508,7 +554,11 @@ impl Sut for AsyncSut {
         self.proc_.borrow_mut().step_policy()
     }
     fn pending(&self) -> (usize, usize, usize) {
-        self.proc_.borrow().pending()
+        match self.proc_.try_borrow() {
+            Ok(p) => p.pending(),
+            // asked from inside a processor step (interposition): only queue lengths are read
+            Err(_) => unsafe { (*self.proc_.as_ptr()).pending() },
+        }
     }
     fn snapshot(&self) -> Snapshot<Val> {
         self.cache.verif_snapshot()
@@ -533,5 +583,23 @@ impl Sut for AsyncSut {
     }
     fn is_async(&self) -> bool {
         true
+    }
+    fn buffer_cap(&self) -> usize {
+        self.cap
+    }
+    fn try_step_insert(&self) -> Option<Result<(), String>> {
+        self.proc_.try_borrow_mut().ok().and_then(|mut p| p.step_insert().map(es))
+    }
+    fn try_step_cleanup(&self) -> Option<Result<(), String>> {
+        self.proc_.try_borrow_mut().ok().map(|mut p| es(p.step_cleanup()))
+    }
+    fn try_step_policy(&self) -> bool {
+        self.proc_.try_borrow_mut().ok().map(|mut p| p.step_policy()).unwrap_or(false)
+    }
+    fn processor_free(&self) -> bool {
+        self.proc_.try_borrow_mut().is_ok()
+    }
+    fn clear_nested(&self, pre: usize) -> (Result<(), String>, Vec<StepObs>) {
+        self.clear(pre)
     }
 }
